@@ -218,6 +218,11 @@ func (s *fileSeedSegment) clone(dst, src *os.File, srcOffset, srcLength, dstOffs
 
 	srcAlignStart := (srcOffset/blocksize + 1) * blocksize
 	srcAlignEnd := (srcOffset + srcLength) / blocksize * blocksize
+	if srcAlignEnd <= srcAlignStart {
+		// No whole block to clone inside the range. Copy it, the head and tail
+		// copies below would reach beyond the range otherwise.
+		return s.copy(dst, src, srcOffset, srcLength, dstOffset)
+	}
 	dstAlignStart := (dstOffset/blocksize + 1) * blocksize
 	alignLength := srcAlignEnd - srcAlignStart
 	dstAlignEnd := dstAlignStart + alignLength
